@@ -118,6 +118,9 @@ type Chain struct {
 	Stats    *Stats
 	Accounts *Accounts
 	Halted   *Violation
+	// Facts: input-level diagnoses one oracle established earlier in the run and later consequences refer to
+	// (e.g. which open finding left the dispute escrow short); never influences what the chain does
+	Facts map[string]string
 }
 
 // Stats counts what actually happened (never what was merely configured).
